@@ -12,7 +12,22 @@ def cbytes_big(bs):
     parser does not recurse 65535 deep on one list literal."""
     if len(bs) <= 1000:
         return cbytes(bs)
-    return '(concat %s)' % clist([cbytes(bs[i:i + 1000]) for i in range(0, len(bs), 1000)])
+    # runs of one octet (the filler of the 64K frames) are written as List.repeat, the rest in pieces of 1000
+    parts, i, lit = [], 0, []
+    def flush():
+        for j in range(0, len(lit), 1000):
+            parts.append(cbytes(lit[j:j + 1000]))
+        del lit[:]
+    while i < len(bs):
+        j = i
+        while j < len(bs) and bs[j] == bs[i]: j += 1
+        if j - i >= 64:
+            flush(); parts.append('(List.repeat %d%%N (N.to_nat %d%%N))' % (bs[i], j - i))
+        else:
+            lit.extend(bs[i:j])
+        i = j
+    flush()
+    return '(concat %s)' % clist(parts)
 
 # ------------------------------------------------------------------ BFD
 def bfd_valid(rng):
@@ -723,6 +738,39 @@ def oracle_bfd(c, o):
             return 'bfd::Message::decode accepted a packet failing the RFC 5880 reception checks'
     return None
 
+STREAM_KINDS = ('rtr', 'bgp', 'fuzz')
+FRESH_KIND = {1: 4, 2: 5}
+
+def stream_result(o):
+    """(messages, final error) of one run: what fragmentation invariance speaks about"""
+    if o == PANIC:
+        return 'panic'
+    return ([e[1] for e in o if e[0] == 0], [e[1:-1] for e in o if e[0] == 2])
+
+def oracle_memoryless(what, chunked, whole, fresh):
+    """Property text (fragmentation invariance; a decoder is memoryless between calls except for the buffer),
+    checked on the REAL decoder against ITSELF, not against the model: (1) the same chunks given to a decoder
+    object that is re-created before every call must produce the same events, one by one; (2) the same bytes
+    fed as one chunk must produce the same messages and the same final error.  The model cannot have hidden
+    state (its decoder is a function of the buffer and an immutable codec), so this is the check that ties
+    that shape to the code, whatever field the state lives in."""
+    if PANIC in (chunked, whole, fresh):
+        return None        # judged by oracle_stream
+    if chunked != fresh:
+        n = next((i for i, (x, y) in enumerate(zip(chunked, fresh)) if x != y), min(len(chunked), len(fresh)))
+        return ('%s keeps state between calls: from call %d on, the decoder object that has seen the earlier calls answers differently from a '
+                'fresh decoder object given the same buffer (%s vs %s)' % (what, n + 1, _ev(chunked, n), _ev(fresh, n)))
+    a, b = stream_result(chunked), stream_result(whole)
+    if a != b:
+        return ('%s is not fragmentation invariant: the stream fed in the generated chunks gives %d message(s) and error %s, the same bytes fed '
+                'whole give %d message(s) and error %s' % (what, len(a[0]), a[1] or 'none', len(b[0]), b[1] or 'none'))
+    return None
+
+def _ev(o, n):
+    if n >= len(o): return 'no further event'
+    e = o[n]
+    return {0: 'a message, %d left', 1: 'need more, %d left', 2: 'error, %d left'}.get(e[0], 'event %d' % e[0]) % e[-1] if e[0] in (0, 1, 2) else 'event %s' % e[0]
+
 def _unlimit_stack():
     """coqc evaluates 65535-byte frames with deep non-tail recursion (vm_compute on the native
     stack): lift the soft stack limit for the coqc children"""
@@ -780,7 +828,7 @@ class Prop:
         if c['k'] == 'bfd':
             return 'run_bfd %s' % cbytes(c['bytes'])
         if c['k'] == 'rtr':
-            return '%s %s' % ('run_rtr_v0' if os.environ.get('C03_RTR_V0') else 'run_rtr', clist([cbytes(x) for x in c['chunks']]))
+            return '%s %s' % ('run_rtr_v0' if os.environ.get('C03_RTR_V0') else 'run_rtr', clist([cbytes_big(x) for x in c['chunks']]))
         if c['k'] == 'bgp':
             return 'run_bgp %s %s' % (codec_coq(c['codec']), clist([cbytes_big(x) for x in c['chunks']]))
         raise ValueError(c)
@@ -812,7 +860,23 @@ class Prop:
 
     # ---- running
     def run_impl(self, cases, tier):
-        return hxpacket.run_both('C03', [self.case_to_val(c) for c in cases])
+        """observation of a BFD case: [debug, release]; of a stream case: [debug, release, whole_debug,
+        whole_release, fresh_debug, fresh_release] where whole = the same bytes fed as ONE chunk and fresh =
+        the same chunks with a NEW decoder object before every call (harness kinds 4/5).  Only the first two
+        are compared with the model (canon); oracle_memoryless compares the runs of the REAL codec with each
+        other."""
+        vals, where = [], []
+        for i, c in enumerate(cases):
+            v = self.case_to_val(c)
+            where.append([len(vals)]); vals.append(v)
+            if c['k'] in STREAM_KINDS:
+                whole = [b for ch in c['chunks'] for b in ch]
+                where[i].append(len(vals)); vals.append(v[:-1] + [[whole]])
+                where[i].append(len(vals)); vals.append([FRESH_KIND[v[0]]] + v[1:])
+        obs, err = hxpacket.run_both('C03', vals)
+        if obs is None:
+            return None, err
+        return [[x for j in w for x in obs[j]] if len(w) > 1 else obs[w[0]] for w in where], ''
 
     def run_model(self, cases, tier):
         _unlimit_stack()
@@ -829,17 +893,26 @@ class Prop:
 
     def canon(self, case, obs):
         # families behind the oracle are not evaluated in the model: only the Spec oracle judges them
-        return 'not-modelled' if case['k'] == 'fuzz' else obs
+        if case['k'] == 'fuzz': return 'not-modelled'
+        # [debug, release] is what the model is compared with; the whole-fed and fresh-decoder runs of the
+        # implementation (run_impl) are judged by the oracle only
+        return obs[:2] if case['k'] in STREAM_KINDS and isinstance(obs, list) else obs
 
     # ---- Spec oracle on the implementation's observations [debug, release]
     def oracle(self, c, obs):
-        for prof, o in zip(('debug', 'release'), obs):
+        for prof, o in zip(('debug', 'release'), obs[:2]):
             if c['k'] == 'bfd': why = oracle_bfd(c, o)
             elif c['k'] == 'rtr': why = oracle_stream(c, o, rtr_complete, 'RtrCodec::decode')
             elif c['k'] in ('bgp', 'fuzz'): why = oracle_bgp(c, o)
             else: why = None
             if why:
                 return '%s build: %s' % (prof, why)
+        if c['k'] in STREAM_KINDS and len(obs) == 6:
+            what = 'RtrCodec::decode' if c['k'] == 'rtr' else 'PeerCodec::try_parse'
+            for j, prof in ((0, 'debug'), (1, 'release')):
+                why = oracle_memoryless(what, obs[j], obs[2 + j], obs[4 + j])
+                if why:
+                    return '%s build: %s' % (prof, why)
         return None
 
     def in_known_class(self, kf, c, obs, why):
